@@ -27,6 +27,11 @@ def check_covered(ctx, case, arg, opts, rexes):
         cls = R.finding_class(s, opts)
         ctx.fail(dict(case, unmatched=s), 'example %r is matched by none of the returned expressions %r' % (s, rexes),
                  finding=cls)
+    if opts.get('strip') and not missed:
+        # with stripping the expressions allow surrounding white space, so the strings as given match too
+        for s in R.unmatched(rexes, R.originals_kept(arg, opts)):
+            ctx.fail(dict(case, unmatched=s), 'example %r (as given, before stripping) is matched by none of the returned '
+                     'expressions %r' % (s, rexes), finding=R.finding_class(s, opts))
 
 
 def run(ctx):
